@@ -1,4 +1,4 @@
-"""Every committed replay file as a plain pytest case (no explorer, no enumeration).
+"""Every committed replay file (regressions/) and every replay written by the last runs (replays/) as a plain pytest case (no explorer, no enumeration).
 
 Run with:  cd /verif && PYTHONHASHSEED=0 PYTHONPATH=/repo/src:/verif /venv/bin/python -m pytest -q tests/test_replays.py
 A replay of a *known finding* is expected to still fail with its recorded key; a replay whose
@@ -19,7 +19,9 @@ for e in json.load(open(os.path.join(ROOT, "known_findings.json")))["findings"]:
         for k in e.get("keys", []):
             KNOWN.add((e["property"], k))
 
-FILES = sorted(glob.glob(os.path.join(ROOT, "replays", "*", "*.json")))
+# regressions/: committed replay files (known findings, repaired defects, violations seen under seeded changes);
+# replays/: written by the checks at run time (not tracked)
+FILES = sorted(glob.glob(os.path.join(ROOT, "regressions", "*", "*.json"))) + sorted(glob.glob(os.path.join(ROOT, "replays", "*", "*.json")))
 
 
 @pytest.mark.parametrize("path", FILES, ids=[os.path.relpath(p, ROOT) for p in FILES])
